@@ -783,8 +783,6 @@ def run_shard(spec, ctx):
     rec = core.Rec()
     cap = ctx.pick(60, 400)
     aio_cap = ctx.pick(6, 40)
-    nsets = ctx.pick(SETS_QUICK, SETS_THOROUGH)
-    strategy = _strategy(ctx.pick(3, 4))
 
     def run(case):
         info = {}
@@ -794,39 +792,44 @@ def run_shard(spec, ctx):
             info.update(i)
             return out
 
-        n_ex, n_viol = rec.excluded, len(rec.violations)
+        n_ex = rec.excluded
         rec.run(oracle, case, reraise=True)
-        if rec.excluded != n_ex or not info:
-            return {"chunks": 0, "steps": 0, "calls": 0} if rec.excluded != n_ex else None
-        return info
+        if rec.excluded != n_ex:
+            return {"chunks": 0, "steps": 0, "calls": 0}
+        return info or None
 
-    @hypothesis.seed(ctx.derive("sets"))
-    @settings(max_examples=nsets, database=None, deadline=None, derandomize=False, report_multiple_bugs=False,
-              suppress_health_check=list(HealthCheck), phases=[Phase.generate, Phase.shrink], print_blob=False,
-              verbosity=hypothesis.Verbosity.quiet)
-    @given(strategy)
-    def test(base):
-        n = rec.extra["template_sets"] = rec.extra.get("template_sets", 0) + 1
-        # keep the per-case gc.collect() cheap: park everything allocated so far (Hypothesis' own state)
-        # in the permanent generation; every 64 sets collect it for real so cyclic garbage does not pile up
-        if n % 64 == 0:
-            gc.unfreeze()
-            gc.collect()
-        gc.freeze()
-        enumerate_set(base, run, cap, aio_cap)
+    for depth, nsets in PHASES[ctx.tier]:
+        if rec.violations:
+            break
 
-    nviol = len(rec.violations)
-    try:
-        test()
-    except core.Violation:
-        last = rec.violations[-1]
-        del rec.violations[nviol:]
-        rec.violations.append(last)
+        @hypothesis.seed(ctx.derive("sets", depth))
+        @settings(max_examples=nsets, database=None, deadline=None, derandomize=False, report_multiple_bugs=False,
+                  suppress_health_check=list(HealthCheck), phases=[Phase.generate, Phase.shrink], print_blob=False,
+                  verbosity=hypothesis.Verbosity.quiet)
+        @given(_strategy(depth))
+        def test(base):
+            n = rec.extra["template_sets"] = rec.extra.get("template_sets", 0) + 1
+            # keep the per-case gc.collect() cheap: park everything allocated so far (Hypothesis' own state)
+            # in the permanent generation; every 64 sets collect it for real so cyclic garbage does not pile up
+            if n % 64 == 0:
+                gc.unfreeze()
+                gc.collect()
+            gc.freeze()
+            enumerate_set(base, run, cap, aio_cap)
+
+        nviol = len(rec.violations)
+        try:
+            test()
+        except core.Violation:
+            last = rec.violations[-1]
+            del rec.violations[nviol:]
+            rec.violations.append(last)
+    gc.unfreeze()
     return rec
 
 
-SETS_QUICK = 1200
-SETS_THOROUGH = 500
+# (nesting depth of the generated bodies, template sets per shard)
+PHASES = {"quick": [(3, 1200)], "thorough": [(3, 2500), (4, 4000), (5, 2500)]}
 
 
 def floors(total, tier):
